@@ -5,7 +5,8 @@
 (*            structure (seq of <<monotonicities, lattices of indices>>), again (second run, same seed), *)
 (*            nInc, nUnc (sizes of the 'increasing' / 'unconstrained' outputs),                      *)
 (*            resp (per supplied column: <<supplied as increasing?, min, max change of the lattice outputs>>)] *)
-(*  Random   [nf, nl, rank, lattices (feature numbers 1..nf), again]                                *)
+(*  Random   [nf, nl, rank, lattices (feature numbers 1..nf), again, others (the same seed in fresh         *)
+(*            interpreters with other string-hash seeds)]                                            *)
 (*  Cover    [nf, rank, lattices]                                                                   *)
 (*  Crystals [nf, nl, rank, tt, lp (scaled integer scores), uses, placed, final]                    *)
 EXTENDS RtlOps, TraceBase
@@ -51,11 +52,13 @@ RandomClauses(e) ==
   \cup (IF \A f \in 1..e.nf : \E k \in 1..Len(e.lattices) : InSeq(f, e.lattices[k]) THEN {} ELSE {"EveryFeatureUsed"})
   \cup (IF \A k \in 1..Len(e.lattices) : \A a, b \in 1..Len(e.lattices[k]) : a # b => e.lattices[k][a] # e.lattices[k][b]
         THEN {} ELSE {"NoRepeatedFeature"})
-  \cup (IF e.again = e.lattices THEN {} ELSE {"DeterministicInSeed"})
+  \cup (IF e.again = e.lattices /\ (Has(e, "others") => \A k \in 1..Len(e.others) : e.others[k] = e.lattices)
+        THEN {} ELSE {"DeterministicInSeed"})
 CoverClauses(e) ==
   (IF \A a, b \in 1..e.nf : a < b => \E k \in 1..Len(e.lattices) : InSeq(a, e.lattices[k]) /\ InSeq(b, e.lattices[k])
    THEN {} ELSE {"EveryPairCovered"})
   \cup (IF \A k \in 1..Len(e.lattices) : Len(e.lattices[k]) <= e.rank THEN {} ELSE {"LatticeRank"})
+  \cup (IF Has(e, "others") => \A k \in 1..Len(e.others) : e.others[k] = e.lattices THEN {} ELSE {"DeterministicInSeed"})
 CrystalsClauses(e) ==
   LET c == [nf |-> e.nf, nl |-> e.nl, rank |-> e.rank]
       tt == [a \in 1..e.nf |-> [b \in 1..e.nf |-> e.tt[a][b]]]
